@@ -61,7 +61,12 @@ def gen_forrange():
     core.write_if_changed(core.GEN / "GenForRange.v", forrange.translate(core.PKG))
 
 
-ALL = [gen_forrange, gen_share, gen_tables, gen_stats, gen_pragma, gen_ops, gen_hash, gen_sites, gen_skeletons, gen_globals]
+def gen_iftest():
+    from pyt2coq import iftest
+    core.write_if_changed(core.GEN / "GenIfTest.v", iftest.translate(core.PKG))
+
+
+ALL = [gen_iftest, gen_forrange, gen_share, gen_tables, gen_stats, gen_pragma, gen_ops, gen_hash, gen_sites, gen_skeletons, gen_globals]
 
 
 def gen_all(strict=True):
